@@ -1,3 +1,528 @@
-//! verif harness entry for conductor_executor (compiled into the repo crate under cfg(all(test, feature = "verif"))).
-#[test]
-fn smoke() {}
+//! S->I replay harness for spec/Conductor.tla, compiled into `astria_conductor::executor`.
+//!
+//! The real `Initialized` executor is built by hand (its own channels, an empty reader-task map) and talks over real
+//! gRPC (tonic on a localhost socket) to an in-process fake rollup that implements `ExecutionService`, records every
+//! RPC it sees and resolves parent hashes to block numbers.
+//!
+//! `transitions`: one case per transition TLC explored.  The abstract pre-state (soft, firm, pending) is materialised
+//!     (the rollup is given the chain 0..=soft, the executor a session on it), `execute_soft` / `execute_firm` is
+//!     called with the block of the case, and the outcome, the new state, `is_spread_too_large` before and after and
+//!     the RPCs issued are reported.
+//! `behaviours`: one case per batched behaviour of the spec: blocks are put on the executor's real channels while the
+//!     real `run_event_loop` is not being polled, then the loop runs until it goes quiet; at every `settle` the state and
+//!     the whole RPC log are reported.  This exercises the biased select and the spread gate.
+#![allow(clippy::all, clippy::pedantic)]
+use std::{
+    collections::HashMap,
+    panic::AssertUnwindSafe,
+    sync::{
+        Arc,
+        Mutex,
+    },
+    time::Duration,
+};
+
+use astria_core::{
+    execution::v2::ExecutedBlockMetadata,
+    generated::astria::execution::v2::{
+        self as raw,
+        execution_service_server::{
+            ExecutionService,
+            ExecutionServiceServer,
+        },
+    },
+    primitive::v1::RollupId,
+    protocol::test_utils::ConfigureSequencerBlock,
+    sequencerblock::v1::block,
+    Protobuf as _,
+};
+use futures::FutureExt as _;
+use serde_json::{
+    json,
+    Value,
+};
+use tokio_util::{
+    sync::CancellationToken,
+    task::JoinMap,
+};
+use tonic::{
+    Request,
+    Response,
+};
+
+use super::{
+    client::Client,
+    state::{
+        self,
+        State,
+    },
+    Initialized,
+};
+use crate::{
+    celestia::ReconstructedBlock,
+    config::CommitLevel,
+    Config,
+};
+
+#[path = "/verif/harness/common/io.rs"]
+mod io;
+
+const SEQ_START: u64 = 10;
+const ROLLUP_START: u64 = 1;
+
+fn rollup_id() -> RollupId {
+    RollupId::new([24; 32])
+}
+
+// ------------------------------------------------------------------------------------------------ the fake rollup
+
+#[derive(Default)]
+struct Rollup {
+    spread: u64,
+    by_hash: HashMap<String, u64>,
+    by_number: HashMap<u64, raw::ExecutedBlockMetadata>,
+    commitment: Option<raw::CommitmentState>,
+    log: Vec<Value>,
+    sessions: u64,
+}
+
+fn ts() -> pbjson_types::Timestamp {
+    pbjson_types::Timestamp {
+        seconds: 1,
+        nanos: 0,
+    }
+}
+
+impl Rollup {
+    fn reset(&mut self, soft: u64, firm: u64, spread: u64) {
+        *self = Rollup::default();
+        self.spread = spread;
+        for n in 0..=soft {
+            let md = raw::ExecutedBlockMetadata {
+                number: n,
+                hash: format!("blk-{n}"),
+                parent_hash: if n == 0 { "genesis".into() } else { format!("blk-{}", n - 1) },
+                timestamp: Some(ts()),
+                sequencer_block_hash: hex::encode([n as u8; 32]),
+            };
+            self.by_hash.insert(md.hash.clone(), n);
+            self.by_number.insert(n, md);
+        }
+        self.commitment = Some(raw::CommitmentState {
+            soft_executed_block_metadata: Some(self.by_number[&soft].clone()),
+            firm_executed_block_metadata: Some(self.by_number[&firm].clone()),
+            lowest_celestia_search_height: 1,
+        });
+    }
+}
+
+struct FakeRollup(Arc<Mutex<Rollup>>);
+
+/// The height (relative to the model: 1, 2, ..) a sequencer block hash made by `block_hash_of` stands for.
+fn height_of_hash(hex_hash: &str) -> i64 {
+    let h = hex_hash.trim_start_matches("0x");
+    i64::from_str_radix(&h[..2.min(h.len())], 16).unwrap_or(-1)
+}
+
+fn block_hash_of(h: u64) -> block::Hash {
+    block::Hash::new([h as u8; 32])
+}
+
+#[tonic::async_trait]
+impl ExecutionService for FakeRollup {
+    async fn create_execution_session(
+        self: Arc<Self>,
+        _request: Request<raw::CreateExecutionSessionRequest>,
+    ) -> tonic::Result<Response<raw::ExecutionSession>> {
+        let mut r = self.0.lock().unwrap();
+        r.sessions += 1;
+        Ok(Response::new(raw::ExecutionSession {
+            session_id: format!("session-{}", r.sessions),
+            execution_session_parameters: Some(raw::ExecutionSessionParameters {
+                rollup_id: Some(rollup_id().into_raw()),
+                rollup_start_block_number: ROLLUP_START,
+                rollup_end_block_number: 0,
+                sequencer_chain_id: "test-sequencer-0".to_string(),
+                sequencer_start_block_height: SEQ_START,
+                celestia_chain_id: "test-celestia-0".to_string(),
+                celestia_search_height_max_look_ahead: r.spread,
+            }),
+            commitment_state: r.commitment.clone(),
+        }))
+    }
+
+    async fn get_executed_block_metadata(
+        self: Arc<Self>,
+        request: Request<raw::GetExecutedBlockMetadataRequest>,
+    ) -> tonic::Result<Response<raw::ExecutedBlockMetadata>> {
+        let mut r = self.0.lock().unwrap();
+        let number = match request.into_inner().identifier.and_then(|i| i.identifier) {
+            Some(raw::executed_block_identifier::Identifier::Number(n)) => n,
+            _ => u64::MAX,
+        };
+        r.log.push(json!(["get", number, 0]));
+        match r.by_number.get(&number) {
+            Some(md) => Ok(Response::new(md.clone())),
+            // a permanent error: the client does not retry on it
+            None => Err(tonic::Status::invalid_argument("no such block")),
+        }
+    }
+
+    async fn execute_block(
+        self: Arc<Self>,
+        request: Request<raw::ExecuteBlockRequest>,
+    ) -> tonic::Result<Response<raw::ExecuteBlockResponse>> {
+        let mut r = self.0.lock().unwrap();
+        let req = request.into_inner();
+        let parent = r.by_hash.get(&req.parent_hash).copied();
+        let h = height_of_hash(&req.sequencer_block_hash);
+        r.log.push(json!(["exec", h, parent.map_or(-1, |p| p as i64)]));
+        let number = parent.map_or(9999, |p| p + 1);
+        let mut hash = format!("blk-{number}");
+        let mut k = 0;
+        while r.by_hash.contains_key(&hash) {
+            k += 1;
+            hash = format!("blk-{number}-again{k}");
+        }
+        let md = raw::ExecutedBlockMetadata {
+            number,
+            hash: hash.clone(),
+            parent_hash: req.parent_hash,
+            timestamp: Some(ts()),
+            sequencer_block_hash: req.sequencer_block_hash,
+        };
+        r.by_hash.insert(hash, number);
+        r.by_number.insert(number, md.clone());
+        Ok(Response::new(raw::ExecuteBlockResponse {
+            executed_block_metadata: Some(md),
+        }))
+    }
+
+    async fn update_commitment_state(
+        self: Arc<Self>,
+        request: Request<raw::UpdateCommitmentStateRequest>,
+    ) -> tonic::Result<Response<raw::CommitmentState>> {
+        let mut r = self.0.lock().unwrap();
+        let cs = request.into_inner().commitment_state.unwrap_or_default();
+        let soft = cs.soft_executed_block_metadata.clone().unwrap_or_default();
+        let firm = cs.firm_executed_block_metadata.clone().unwrap_or_default();
+        // the commitments must name blocks of this rollup's chain, by hash, and the block named for number n must be the
+        // one executed from sequencer height n
+        let known = |r: &Rollup, md: &raw::ExecutedBlockMetadata| {
+            r.by_hash.get(&md.hash) == Some(&md.number)
+                && r.by_number.get(&md.number).is_some_and(|b| {
+                    b.hash == md.hash && (md.number == 0 || height_of_hash(&b.sequencer_block_hash) == md.number as i64)
+                })
+        };
+        let entry = if known(&r, &soft) && known(&r, &firm) {
+            json!(["commit", soft.number, firm.number])
+        } else {
+            json!(["commit-unknown-hash", soft.number, firm.number])
+        };
+        r.log.push(entry);
+        r.commitment = Some(cs.clone());
+        Ok(Response::new(cs))
+    }
+}
+
+async fn spawn_rollup() -> (Arc<Mutex<Rollup>>, String) {
+    use tokio_stream::wrappers::TcpListenerStream;
+    let listener = tokio::net::TcpListener::bind("127.0.0.1:0").await.unwrap();
+    let addr = listener.local_addr().unwrap();
+    let inner = Arc::new(Mutex::new(Rollup::default()));
+    let svc = FakeRollup(inner.clone());
+    tokio::spawn(async move {
+        tonic::transport::Server::builder()
+            .add_service(ExecutionServiceServer::new(svc))
+            .serve_with_incoming(tokio_stream::StreamExt::map(TcpListenerStream::new(listener), |s| {
+                s.map(|s| {
+                    // no 40 ms delayed-ACK stalls between the small request/response frames
+                    let _ = s.set_nodelay(true);
+                    s
+                })
+            }))
+            .await
+            .unwrap();
+    });
+    (inner, format!("http://{addr}"))
+}
+
+// ------------------------------------------------------------------------------------------------ the executor
+
+fn commit_level(mode: &str) -> CommitLevel {
+    match mode {
+        "SoftOnly" => CommitLevel::SoftOnly,
+        "FirmOnly" => CommitLevel::FirmOnly,
+        "SoftAndFirm" => CommitLevel::SoftAndFirm,
+        other => panic!("unknown mode {other}"),
+    }
+}
+
+fn config(level: CommitLevel, uri: &str) -> Config {
+    Config {
+        celestia_block_time_ms: 12000,
+        celestia_node_http_url: "http://127.0.0.1:1".into(),
+        no_celestia_auth: true,
+        celestia_bearer_token: String::new(),
+        sequencer_grpc_url: "http://127.0.0.1:1".into(),
+        sequencer_cometbft_url: "http://127.0.0.1:1".into(),
+        sequencer_block_time_ms: 2000,
+        sequencer_requests_per_second: 500,
+        execution_rpc_url: uri.into(),
+        log: "info".into(),
+        execution_commit_level: level,
+        force_stdout: false,
+        no_otel: true,
+        no_metrics: true,
+        metrics_http_listener_addr: String::new(),
+    }
+}
+
+fn metrics() -> &'static crate::Metrics {
+    use std::sync::OnceLock;
+    static M: OnceLock<&'static crate::Metrics> = OnceLock::new();
+    M.get_or_init(|| {
+        let m: crate::Metrics = <crate::Metrics as telemetry::Metrics>::noop_metrics(&()).unwrap();
+        Box::leak(Box::new(m))
+    })
+}
+
+struct Senders {
+    firm: tokio::sync::mpsc::Sender<Box<ReconstructedBlock>>,
+    soft: tokio::sync::mpsc::Sender<astria_core::sequencerblock::v1::block::FilteredSequencerBlock>,
+}
+
+/// What `Executor::init` does, minus spawning the two readers: a new session on the rollup, the tracked state built
+/// from it, the block channels sized from it.
+async fn start(level: CommitLevel, uri: &str) -> (Initialized, Senders) {
+    let mut client = Client::connect_lazy(uri).unwrap();
+    let session = client.create_execution_session_with_retry().await.unwrap();
+    let (st, _) = state::channel(State::try_from_execution_session(&session, level).unwrap());
+    let super::Channels {
+        firm_sender,
+        firm_receiver,
+        soft_sender,
+        soft_receiver,
+    } = super::create_block_channels(level, &st).unwrap();
+    let shutdown = CancellationToken::new();
+    let init = Initialized {
+        config: config(level, uri),
+        client,
+        firm_blocks: firm_receiver,
+        soft_blocks: soft_receiver,
+        shutdown: shutdown.clone(),
+        state: st,
+        blocks_pending_finalization: HashMap::new(),
+        metrics: metrics(),
+        reader_tasks: JoinMap::new(),
+        reader_cancellation_token: shutdown.child_token(),
+    };
+    (
+        init,
+        Senders {
+            firm: firm_sender,
+            soft: soft_sender,
+        },
+    )
+}
+
+fn sequencer_block(h: u64) -> astria_core::sequencerblock::v1::SequencerBlock {
+    ConfigureSequencerBlock {
+        block_hash: Some(block_hash_of(h)),
+        chain_id: Some("test-sequencer-0".to_string()),
+        height: (SEQ_START + h - 1) as u32,
+        sequence_data: vec![(rollup_id(), format!("tx-{h}").into_bytes())],
+        unix_timestamp: (1i64, 1u32).into(),
+        with_extended_commit_info: false,
+        ..Default::default()
+    }
+    .make()
+}
+
+fn soft_block(h: u64) -> astria_core::sequencerblock::v1::block::FilteredSequencerBlock {
+    sequencer_block(h).into_filtered_block([rollup_id()])
+}
+
+fn firm_block(h: u64) -> Box<ReconstructedBlock> {
+    let blk = sequencer_block(h);
+    Box::new(ReconstructedBlock {
+        celestia_height: 100 + h,
+        block_hash: *blk.block_hash(),
+        header: blk.header().clone(),
+        // the same RollupData-encoded items the soft block carries for this rollup
+        transactions: blk
+            .rollup_transactions()
+            .get(&rollup_id())
+            .map(|txs| txs.transactions().to_vec())
+            .unwrap_or_default(),
+        extended_commit_info: None,
+    })
+}
+
+fn observe(init: &Initialized) -> Value {
+    let mut pending: Vec<u64> = init.blocks_pending_finalization.keys().copied().collect();
+    pending.sort_unstable();
+    json!({
+        "soft": init.state.soft_number(),
+        "firm": init.state.firm_number(),
+        "pending": pending,
+        "spread": init.is_spread_too_large(),
+    })
+}
+
+#[tokio::test(flavor = "multi_thread", worker_threads = 2)]
+async fn transitions() {
+    let cases = io::read_cases();
+    let mut out = io::Writer::open();
+    let (rollup, uri) = spawn_rollup().await;
+    for c in cases.iter() {
+        let level = commit_level(c["mode"].as_str().unwrap());
+        let s = &c["s"];
+        let (soft, firm) = (s["soft"].as_u64().unwrap(), s["firm"].as_u64().unwrap());
+        rollup.lock().unwrap().reset(soft, firm, c["spread"].as_u64().unwrap());
+        let (mut init, _senders) = start(level, &uri).await;
+        for p in s["pending"].as_array().unwrap() {
+            let n = p.as_u64().unwrap();
+            let md = rollup.lock().unwrap().by_number[&n].clone();
+            init.blocks_pending_finalization
+                .insert(n, ExecutedBlockMetadata::try_from_raw(md).unwrap());
+        }
+        let before = observe(&init);
+        rollup.lock().unwrap().log.clear();
+        let h = c["a"]["h"].as_u64().unwrap();
+        let op = c["a"]["op"].as_str().unwrap();
+        let fut = async {
+            match op {
+                "soft" => init.execute_soft(soft_block(h)).await,
+                "firm" => init.execute_firm(firm_block(h)).await,
+                other => panic!("unknown op {other}"),
+            }
+        };
+        let res = tokio::time::timeout(Duration::from_secs(10), AssertUnwindSafe(fut).catch_unwind()).await;
+        let result = match res {
+            Err(_) => "timeout".to_string(),
+            Ok(Err(_)) => "panic".to_string(),
+            Ok(Ok(Ok(()))) => "ok".to_string(),
+            Ok(Ok(Err(e))) => format!("error: {e:#}"),
+        };
+        let after = observe(&init);
+        let log = rollup.lock().unwrap().log.clone();
+        out.put(&json!({"i": c["id"], "result": result, "before": before, "after": after, "rpc": log}));
+    }
+}
+
+/// Polls the real event loop until it has done what the specification says this phase amounts to (the executor's
+/// tracked heights, what is left on the two channels, the number of RPCs the rollup saw, whether the loop ended), or
+/// `VERIF_WAIT_MS` have passed; then keeps polling for a short grace period so that anything it does beyond that shows.
+/// A conforming executor reaches the condition however slow the machine is; one that does not is reported by the
+/// comparison that follows.
+async fn run_phase(
+    init: &mut Initialized,
+    senders: &Senders,
+    rollup: &Arc<Mutex<Rollup>>,
+    expect: &Value,
+) -> Option<String> {
+    let env_ms = |k: &str, d: u64| Duration::from_millis(std::env::var(k).ok().and_then(|s| s.parse().ok()).unwrap_or(d));
+    let wait = env_ms("VERIF_WAIT_MS", 20_000);
+    let grace = env_ms("VERIF_GRACE_MS", 25);
+    let watch = init.state.subscribe();
+    let reached = |ended: &Option<String>| {
+        let soft = watch.next_expected_soft_sequencer_height().value() - SEQ_START;
+        let firm = watch.next_expected_firm_sequencer_height().value() - SEQ_START;
+        ended.is_some() == expect["dead"].as_bool().unwrap()
+            && soft == expect["soft"].as_u64().unwrap()
+            && firm == expect["firm"].as_u64().unwrap()
+            && rollup.lock().unwrap().log.len() >= expect["rpc"].as_array().unwrap().len()
+            && (senders.soft.max_capacity() - senders.soft.capacity()) as u64 == expect["softLeft"].as_u64().unwrap()
+            && (senders.firm.max_capacity() - senders.firm.capacity()) as u64 == expect["firmLeft"].as_u64().unwrap()
+    };
+    let mut ended = None;
+    let lp = AssertUnwindSafe(init.run_event_loop()).catch_unwind();
+    tokio::pin!(lp);
+    let deadline = tokio::time::Instant::now() + wait;
+    let mut grace_until = None;
+    loop {
+        if grace_until.is_none() && reached(&ended) {
+            grace_until = Some(tokio::time::Instant::now() + grace);
+        }
+        let now = tokio::time::Instant::now();
+        if grace_until.is_some_and(|g| now >= g) || now >= deadline {
+            break;
+        }
+        tokio::select! {
+            r = &mut lp, if ended.is_none() => {
+                ended = Some(match r {
+                    Err(_) => "panic".to_string(),
+                    Ok(Ok(_)) => "exited".to_string(),
+                    Ok(Err(e)) => format!("error: {e:#}"),
+                });
+            }
+            () = tokio::time::sleep(Duration::from_millis(2)) => {}
+        }
+    }
+    ended
+}
+
+#[tokio::test(flavor = "multi_thread", worker_threads = 2)]
+async fn behaviours() {
+    let cases = io::read_cases();
+    let mut out = io::Writer::open();
+    let (rollup, uri) = spawn_rollup().await;
+    for c in cases.iter() {
+        let level = commit_level(c["mode"].as_str().unwrap());
+        rollup.lock().unwrap().reset(0, 0, c["spread"].as_u64().unwrap());
+        let (mut init, mut senders) = start(level, &uri).await;
+        let mut dead: Option<String> = None;
+        let mut settles = vec![];
+        let mut load_errors: Vec<String> = vec![];
+        let hist = c["hist"].as_array().unwrap();
+        for (n, ev) in hist.iter().enumerate() {
+            let h = ev["h"].as_u64().unwrap_or(0);
+            if std::env::var("VERIF_DEBUG").is_ok() {
+                eprintln!("ev {ev} softcap {} firmcap {} log {:?}", senders.soft.capacity(), senders.firm.capacity(), rollup.lock().unwrap().log);
+            }
+            match ev["op"].as_str().unwrap() {
+                // the model only delivers when the channel has room; if the real channel is full the executor has
+                // not read what the model says it reads -- reported with the next settle, not a harness failure
+                "soft" => {
+                    if senders.soft.try_send(soft_block(h)).is_err() {
+                        load_errors.push(format!("soft {h}: channel full or closed"));
+                    }
+                }
+                "firm" => {
+                    if senders.firm.try_send(firm_block(h)).is_err() {
+                        load_errors.push(format!("firm {h}: channel full or closed"));
+                    }
+                }
+                "restart" => {
+                    drop(init);
+                    let (i2, s2) = start(level, &uri).await;
+                    init = i2;
+                    senders = s2;
+                    dead = None;
+                }
+                "go" => {
+                    if dead.is_none() {
+                        let expect = hist[n..].iter().find(|e| e["op"] == "settle").expect("a go is followed by a settle");
+                        dead = run_phase(&mut init, &senders, &rollup, expect).await;
+                        if std::env::var("VERIF_DEBUG").is_ok() {
+                            eprintln!("phase ended: {dead:?}");
+                        }
+                    }
+                }
+                "settle" => {
+                    let mut o = observe(&init);
+                    o["dead"] = json!(dead.is_some());
+                    o["ended"] = json!(dead.clone());
+                    o["load_errors"] = json!(load_errors.clone());
+                    o["rpc"] = json!(rollup.lock().unwrap().log.clone());
+                    o["softLeft"] = json!(senders.soft.max_capacity() - senders.soft.capacity());
+                    o["firmLeft"] = json!(senders.firm.max_capacity() - senders.firm.capacity());
+                    settles.push(o);
+                }
+                other => panic!("unknown op {other}"),
+            }
+        }
+        out.put(&json!({"i": c["id"], "settles": settles}));
+    }
+}
